@@ -9,7 +9,7 @@
 (*                    the same values through the public constructors,     *)
 (*                    Display and try_parse.                               *)
 (*  Mode "text"       all texts of <= MaxLines lines over a 21 shape line  *)
-(*                    alphabet (from the third line on: a 9 shape subset)  *)
+(*                    alphabet (from the second line on, unless Rich: a subset)  *)
 (*                    x {3-class mapping, empty mapping}: the              *)
 (*                    line machine's output, the one-group-per-line and    *)
 (*                    identity-under-empty-mapping laws.                   *)
@@ -51,7 +51,8 @@ MapBlocks == Blocks([k \in 1..Len(MapLines) |-> Denotes(MapLines[k])])
 EmptyBlocks == <<>>
 
 \* ---- mode "roundtrip" ---------------------------------------------------------------------------
-RtClasses == {B("a.B"), B("a$b"), E \o B(".C")} \cup (IF Rich THEN {B("x"), B("a:")} ELSE {})
+\* (the last: a class name led by U+FEFF, which is not white space: a name like any other, also on the first line)
+RtClasses == {B("a.B"), B("a$b"), E \o B(".C"), <<239, 187, 191>> \o B("x.Y")} \cup (IF Rich THEN {B("x"), B("a:")} ELSE {})
 RtMessages == {<<>>, <<B(": ")>> , <<B("Caused by: x")>>, <<B("at a.b(c:1)")>>} \cup
               (IF Rich THEN {<<B("m") \o E>>, <<B("x: y: z")>>} ELSE {})
 RtThrowables == {T(c, m) : c \in RtClasses, m \in RtMessages}
@@ -73,6 +74,7 @@ TextLines ==
    B("Caused by: a: x: y"),
    B("a"),                                     \* mapped throwable
    B("zz.Unknown: x"),                         \* unmapped throwable
+   B("Exception in thread \"main\" a: boom"),   \* the JVM's header for an uncaught exception: not a throwable (spaces before ': ')
    B("Caused by: a: inner"),                   \* mapped cause
    B("Caused by: q.R"),                        \* unmapped cause
    B("  Caused by: a"),                        \* indented: not a cause prefix
@@ -92,9 +94,9 @@ TextLines ==
    <<>>,                                       \* blank line
    B("message says at a.m(SourceFile:2) here"),\* frame look-alike inside free text
    B("free text ") \o E}
-\* from the third line on: the lines that interact with what came before (levels, frames, respelled frames, blanks)
+\* from the second line on (quick): the lines that interact with what came before (levels, frames, respelled frames, blanks)
 TextLinesTail ==
-  {B("a: boom"), B("Caused by: a: inner"), B("    at a.n(SourceFile:4)"), B("    at a.m(SourceFile:9)"),
+  {B("a: boom"), B("a"), B("Caused by: q.R"), B("Caused by: a: inner"), B("    at a.n(SourceFile:4)"), B("    at a.m(SourceFile:9)"),
    B("  at a.m(SourceFile:9)"), B("    at zz.Unknown.f(X.java:1)"), <<9>> \o B("at zz.Unknown.f(X.java:1)"),
    B("    ... 3 more"), <<>>,
    B("    at a.m(SourceFile:2)") \o <<11>>,    \* a vertical tab behind a frame
@@ -102,7 +104,8 @@ TextLinesTail ==
 LineTerms == IF Rich THEN {<<10>>, <<13, 10>>} ELSE {<<10>>}
 
 \* ---- mode "typed" ------------------------------------------------------------------------------------
-TyThrowables == {T(B("a"), <<>>), T(B("a"), <<B("boom")>>), T(B("zz.U"), <<B("x: y")>>), T(B("b.c"), <<>>)}
+\* (the last: an unmapped exception whose message is the obfuscated name of a mapped class - a message is never remapped)
+TyThrowables == {T(B("a"), <<>>), T(B("a"), <<B("boom")>>), T(B("zz.U"), <<B("x: y")>>), T(B("b.c"), <<>>), T(B("zz.CNF"), <<B("a")>>)}
 TyFrames == {F(B("a"), B("m"), D(2), B("SourceFile")),     \* -> 1
              F(B("a"), B("n"), D(4), B("SourceFile")),     \* -> 2
              F(B("a"), B("m"), D(9), B("SourceFile")),     \* known method, no entry applies
@@ -111,7 +114,10 @@ TyFrames == {F(B("a"), B("m"), D(2), B("SourceFile")),     \* -> 1
              F(B("b.c"), B("p"), D(0), B("Y")),            \* no range entry, class-level file
              F(B("a"), B("q"), D(6), B("SourceFile"))}     \* -> 2, the second of which is itself a key (keep.K.outer)
 \* runs of identical frames (deep recursion): every frame of a run is remapped on its own
-TyFrameSeqs == {<<>>} \cup {<<f>> : f \in TyFrames} \cup {<<f, g>> : f, g \in TyFrames}
+TyFrameSeqs == {<<>>} \cup {<<f>> : f \in TyFrames}
+               \cup {<<f, g>> : f \in TyFrames, g \in (IF Rich THEN TyFrames ELSE {F(B("a"), B("n"), D(4), B("SourceFile")),
+                                                                                   F(B("a"), B("m"), D(9), B("SourceFile")),
+                                                                                   F(B("zz.U"), B("f"), D(1), B("X.java"))})}
                \cup {<<f, f, f>> : f \in TyFrames} \cup {<<f, f, f, f>> : f \in TyFrames}
 TyLevel1 == {Lv(e, fs) : e \in {<<>>} \cup {<<t>> : t \in TyThrowables}, fs \in TyFrameSeqs}
 TyLevelN == {Lv(<<t>>, fs) : t \in (IF Rich THEN TyThrowables ELSE {T(B("a"), <<B("boom")>>), T(B("zz.U"), <<B("x: y")>>)}), fs \in {<<>>, <<F(B("a"), B("n"), D(4), B("SourceFile"))>>, <<F(B("zz.U"), B("f"), D(1), B("X.java"))>>,
@@ -128,7 +134,7 @@ Init ==
   \/ Mode = "typed" /\ n = 1 /\ x \in {<<l>> : l \in TyLevel1}
 Next ==
   \/ Mode = "roundtrip" /\ n < MaxDepth + 1 /\ \E l \in RtLevelN : x' = Append(x, l) /\ n' = n + 1
-  \/ Mode = "text" /\ n < MaxLines /\ \E l \in (IF n < 2 \/ Rich THEN TextLines ELSE TextLinesTail), t \in LineTerms : x' = Append(x, l \o t) /\ n' = n + 1
+  \/ Mode = "text" /\ n < MaxLines /\ \E l \in (IF n < 1 \/ Rich THEN TextLines ELSE TextLinesTail), t \in LineTerms : x' = Append(x, l \o t) /\ n' = n + 1
   \/ Mode = "typed" /\ n < MaxDepth + 1 /\ \E l \in TyLevelN : x' = Append(x, l) /\ n' = n + 1
 Spec == Init /\ [][Next]_vars
 
